@@ -422,8 +422,8 @@ fn jiff_accepts_us(us: i64) -> bool {
     -377705023201000000 <= us && us <= 253402207200000000
 }
 /// what `epoch_to_timestamp` / `to_iso8601` may hand to jiff for the number `v`, in
-/// microseconds: the exact product for machine integers; for floats the IEEE product converted
-/// to i64, where a non-finite input must never become an instant that jiff accepts ("never
+/// microseconds: the exact product for machine integers; for floats the microsecond nearest to
+/// the IEEE product, where a non-finite input must never become an instant that jiff accepts ("never
 /// wrapped, clamped or answered with a different instant"); an error for everything else
 fn check_epoch_us(v: &AnyVal, passed: Option<i64>, is_err: bool) {
     match (v.int, v.flt) {
@@ -433,7 +433,15 @@ fn check_epoch_us(v: &AnyVal, passed: Option<i64>, is_err: bool) {
         },
         (None, Some(f)) => match passed {
             Some(us) => {
-                assert!(us == (f * 1000000.0) as i64);
+                // "to the microsecond": the nearest microsecond to f seconds, not a truncation
+                // (below 2^53 microseconds; beyond that the product is integral and the cast
+                // saturates outside jiff's range)
+                let p = f * 1000000.0;
+                if p.abs() < 9.0e15 {
+                    assert!((us as f64 - p).abs() <= 0.5);
+                } else {
+                    assert!(us == p as i64);
+                }
                 if !f.is_finite() {
                     assert!(!jiff_accepts_us(us));
                 }
@@ -543,10 +551,18 @@ fn c20_array_seconds() {
     kani::cover!(matches!(sec.flt, Some(f) if f == 59.5));
     let some = crate::time::verif_array_to_datetime(&v);
     match (unsafe { GHOST_DT }, sec.flt) {
-        (Some((_, _, _, _, _, s, _ns)), Some(f)) => {
+        (Some((_, _, _, _, _, s, ns)), Some(f)) => {
             assert!(some);
             if f >= -128.0 && f < 128.0 {
                 assert!(s as f64 <= f && f < s as f64 + 1.0);
+                if f >= 0.0 {
+                    // "to the microsecond": the sub-second part is the nearest nanosecond to the
+                    // fraction (never a truncation that loses the last microsecond), and stays a
+                    // valid nanosecond count
+                    let p = (f - s as f64) * 1e9;
+                    assert!(0 <= ns && ns <= 999_999_999);
+                    assert!((ns as f64 - p).abs() <= 0.5 || (p > 999_999_999.5 && ns == 999_999_999));
+                }
             } else {
                 // out of range or NaN: whatever is passed must not look like a valid second
                 assert!(!(0 <= s && s <= 59));
